@@ -8,7 +8,7 @@ use yui::lc::Lc;
 use yui::poly::Poly;
 use yui::{EisenInt, EucRing, EucRingOps, GaussInt, Ratio, FF};
 use yui_homology::utils::HomologyCalc;
-use yui_homology::{ChainComplexTrait, EnumGen, GenericChainComplex, GridTrait, SummandTrait};
+use yui_homology::{ChainComplexTrait, ComputeHomology, EnumGen, GenericChainComplex, GridTrait, SummandTrait};
 use yui_matrix::sparse::SpMat;
 use yui_matrix::MatTrait;
 
@@ -143,6 +143,32 @@ where T: EucRing + Bridge, for<'x> &'x T: EucRingOps<T>, T::O: OEuc {
                         return
                     }
                 }
+            }
+        }
+    }
+
+    // route 1b: the whole-complex computation with and without coordinate maps must report the same groups
+    for with_trans in [false, true] {
+        match guarded(|| (c.compute_homology(with_trans), (0..=len).map(|i| c.compute_homology_at(i as isize, with_trans)).collect::<Vec<_>>())) {
+            Ok((hh, at)) => {
+                for i in 0..=len {
+                    for (route, s) in [("compute_homology", &hh[i as isize]), ("compute_homology_at", &at[i])] {
+                        let a = &h[i as isize];
+                        let same = s.rank() == a.rank() && s.tors().len() == a.tors().len()
+                            && s.tors().iter().zip(a.tors().iter()).all(|(x, y)| x.to_o().associate(&y.to_o()));
+                        if !same {
+                            ctx.violation(&format!("C07/{tname}/route-{route}"),
+                                &format!("H_{i}: {route}(with_trans = {with_trans}) reports rank {} torsion {:?} but homology() reports rank {} torsion {:?}", s.rank(), s.tors(), a.rank(), a.tors()),
+                                wit(i, json!(null)));
+                            return
+                        }
+                    }
+                }
+            }
+            Err(p) => {
+                if !unbounded && p.is_overflow() { ctx.inconclusive("overflow_machine_int"); return }
+                ctx.violation(&format!("C07/{tname}/compute-panic"), &format!("compute_homology({with_trans}) panicked: {}", p.brief()), wit(0, json!(null)));
+                return
             }
         }
     }
